@@ -112,7 +112,7 @@ class C06(CoreProp):
     judge_module = "Run.Judge_C06"
     prop_module = "Props.C06"
     prop_file = "Props/C06.v"
-    coq_targets = ["Props/C06.vo", "Run/Judge_C06.vo"]
+    coq_targets = ["Props/C06.vo", "Run/Judge_C06.vo", "Props/Tables.vo"]
     sizes = {"quick": 1500, "thorough": 40000}
     shard = 120
     design_ref = "DESIGN.md section 6/C06"
